@@ -72,6 +72,33 @@ def judge(case):
                                       f"{true[c]:.5f} ({hits[c]} hits of {total}; band 30 % + 6.5 sigma)"))
     case["_worst"] = float(np.abs(rel).max())
     case["_mc_points"] = int(total)
+    if case.get("consumer_history") and not out:
+        # the same rotation grid inside a full grid, after the full grid's consumers of the volumes ran (total volumes /
+        # prefactors, twice), and after a caller scaled a returned volume array in place: what the rotation grid reports
+        # must still satisfy the clauses judged above
+        try:
+            from vlib.grids import full_grid
+            with quiet():
+                first = np.asarray(g.get_spherical_voronoi().get_voronoi_volumes(), dtype=float)
+                first *= 8.0   # the caller's own array
+                again = np.asarray(g.get_spherical_voronoi().get_voronoi_volumes(), dtype=float)
+                fg = full_grid(f"{alg}_{N}", case["consumer_history"][0], case["consumer_history"][1])
+                for _ in range(2):
+                    fg.get_total_volumes()
+                inside = np.asarray(fg.b_rotations.get_spherical_voronoi().get_voronoi_volumes(), dtype=float)
+        except Exception as e:
+            return [(None, f"{alg}_{N}: consumer history: {type(e).__name__}: {e}")]
+        for label, v in (("after the caller scaled the previously returned array", again),
+                         (f"of the rotation grid inside FullGrid({alg}_{N}, {case['consumer_history'][0]}, "
+                          f"{case['consumer_history'][1]}) after get_total_volumes()", inside)):
+            if v.shape != (N,):
+                out.append((None, f"{alg}_{N}: {v.shape} volumes {label}"))
+                continue
+            r2 = v / np.maximum(true, 1e-300) - 1
+            if (v <= 0).any() or abs(v.sum() / PI2 - 1) > 0.12 or (np.abs(r2) > tol).any():
+                c = int(np.argmax(np.abs(r2)))
+                out.append((None, f"{alg}_{N}: volumes {label} sum to {v.sum() / PI2:.4f} pi^2, cell {c} is "
+                                  f"{r2[c] * 100:+.1f} % off the Monte-Carlo measure"))
     if case.get("check_double_cover"):
         from molgri.space.voronoi import RotobjVoronoi
         with quiet():
@@ -96,14 +123,15 @@ def _one(case):
     res = Result()
     found = judge(case)
     res.case(sample={k: v for k, v in case.items()}, nontrivial=case["N"] >= 4 and case["alg"] in ("cube4D", "randomQ"),
-             key=[case["alg"], case["N"]], classes=[f"alg={case['alg']}", "N<4" if case["N"] < 4 else "N>=4"])
+             key=[case["alg"], case["N"]], classes=[f"alg={case['alg']}", "N<4" if case["N"] < 4 else "N>=4"]
+             + (["with_full_grid_consumer_history"] if case.get("consumer_history") and case["N"] >= 4 else []))
     for key, msg in found:
         k = known_match(key)
         if k is not None:
             res.known_finding(k["key"], k["what"])
         else:
             res.violation({"alg": case["alg"], "N": case["N"], "check_double_cover": case.get("check_double_cover", False),
-                           "after": case.get("after")}, msg)
+                           "after": case.get("after"), "consumer_history": case.get("consumer_history")}, msg)
     return res
 
 
@@ -135,7 +163,9 @@ def run(tier):
             ns = set(range(1, 41)) | set(int(x) for x in rng.integers(41, 110, size=4)) | {128, 200}
         else:
             ns = set(range(1, 273))
-        cases += [{"alg": alg, "N": n, "check_double_cover": n <= (40 if tier == "quick" else 120)} for n in ns]
+        hist = [("zero3D_1", "[0.3]"), ("ico_5", "[0.2, 0.4]")]
+        cases += [{"alg": alg, "N": n, "check_double_cover": n <= (40 if tier == "quick" else 120),
+                   "consumer_history": hist[n % 2] if (n <= 60 and (tier == "thorough" or n % 3 != 2)) else None} for n in ns]
     for alg in ("ico", "cube3D", "randomS"):
         cases += [{"alg": alg, "N": n} for n in (1, 2, 3)]
     by_n = {}
@@ -149,6 +179,7 @@ def run(tier):
     rule = ("enumeration of (algorithm, N): cube4D and randomQ, " + ("every N in 1..40, 4 seeded N in 41..110 and N = 128, 200 each" if tier == "quick"
             else "every N in 1..272") + "; direction grids N=1..3 for the equal-share clause. For N>=4 every cell is compared with a "
             "Monte-Carlo nearest-rotation measure (adaptive number of uniform points so that the smallest cell gets >= 10 000 hits). "
+            "For N<=60 (quick: two thirds of them) the clauses are judged again on the volumes reported after a caller scaled a returned array in place and by the rotation grid inside a FullGrid after get_total_volumes() ran twice. "
             "Non-trivial = rotation grid with N>=4; distinct = distinct (algorithm, N).")
     return res, rule, {"exhaustive": tier == "thorough",
                        "assumptions": ["the oracle is statistical: alarm threshold = 30 % + 6.5 sigma of the cell's own sampling error, "
